@@ -345,3 +345,40 @@ LEVEL_NOTE = ("Trusted: Coq kernel, extraction + OCaml driver, the Rust harness 
               "select_biased!, oneshot channel semantics, signal cells. Sequential atomic polls only (threads: C19). "
               "The pre-fix code (futures::select!) is kept as the biased=false instance of the model with a refutation witness. No axioms.")
 TECHNIQUE = "Coq proof (invariant over all event histories and poll orders) + differential correspondence of the extracted model with the Rust code"
+
+
+def valid_case(item):
+    """generator preconditions (the shrinker only keeps candidates satisfying them)"""
+    case = item["case"]
+    try:
+        if case[0] in (0, 2):
+            if len(case) != 3 or not isinstance(case[1], int) or not 0 <= case[1] <= 3:
+                return False
+            evs, multi = case[2], False
+        elif case[0] == 1:
+            if len(case) != 2:
+                return False
+            evs, multi = case[1], True
+        else:
+            return False
+        arity = {0: 2, 1: 2, 2: 3, 3: 3, 4: 1, 5: 2, 6: 2, 7: 2}
+        for e in evs:
+            if not isinstance(e, list) or not e or e[0] not in arity or len(e) != arity[e[0]]:
+                return False
+            if multi and e[0] in (4, 6):
+                return False
+            if not multi and e[0] == 7:
+                return False
+            if e[0] == 5:
+                if not isinstance(e[1], list) or any((not isinstance(p, int)) or p < 0 for p in e[1]):
+                    return False
+            elif e[0] in (1, 2, 3, 6):
+                if not isinstance(e[1], int) or e[1] < 0:
+                    return False
+                if len(e) == 3 and not isinstance(e[2], int):
+                    return False
+            elif len(e) == 2 and not isinstance(e[1], int):
+                return False
+        return True
+    except Exception:
+        return False
